@@ -12,9 +12,11 @@ use std::sync::Arc;
 use std::thread::ThreadId;
 use std::time::{Duration, Instant};
 
-use verif_harness::locks::Recorder;
+use verif_harness::locks::{Recorder, SyncEv};
 use verif_harness::pollworld::{MonitorThread, SimChain};
-use verif_harness::world::{initial_chain, Cfg, Meta, Op, Reply, World};
+use verif_harness::world::{initial_chain, Cfg, Meta, Op, Reply, World, INIT_HEIGHT};
+
+const INIT_TIP: usize = INIT_HEIGHT as usize;
 use verif_harness::{env_u64, Line};
 
 #[derive(Clone, Debug)]
@@ -33,7 +35,6 @@ enum Step {
 }
 
 struct InFlight {
-    #[allow(dead_code)]
     tid: ThreadId,
     rx: mpsc::Receiver<Reply>,
     meta: Meta,
@@ -57,6 +58,16 @@ struct Run {
     forced: bool,
     hit: bool,
     waiter: &'static str,
+    /// API worker threads in the order they were started
+    api_tids: Vec<ThreadId>,
+    /// the scenario as the model driver replays it (one item per step)
+    mdl: Vec<String>,
+    /// length of the node's wire log when the outage was armed
+    wire_mark: i64,
+    /// number of blocks handed to the listeners when the fault was armed
+    deliv_mark: i64,
+    /// per-thread traces (node's wire log, condition-variable events) taken before any forced release
+    snapshot: Option<(String, String)>,
 }
 
 fn work_dir(tag: &str) -> PathBuf {
@@ -74,6 +85,9 @@ impl Run {
         chain.source.0.lock().unwrap().link = Some(link.clone());
         let mon = MonitorThread::spawn(chain.source.clone(), chain.tip_header(), &w);
         let mon_tid = mon.handle.as_ref().map(|h| h.thread().id());
+        rec.start_trace();
+        verif_harness::evlog::clear();
+        verif_harness::evlog::enable(true);
         Run {
             w,
             chain,
@@ -90,27 +104,100 @@ impl Run {
             forced: false,
             hit: false,
             waiter: "none",
+            api_tids: Vec::new(),
+            mdl: Vec::new(),
+            wire_mark: -1,
+            deliv_mark: -1,
+            snapshot: None,
         }
     }
 
-    /// Waits until the thread `tid` has delivered on `poll` or is blocked for good (waiting on the
-    /// condition variable, or asking for a lock while nothing in the process makes progress).
+    fn role(&self, t: ThreadId) -> String {
+        if Some(t) == self.mon_tid {
+            return "m".into();
+        }
+        match self.api_tids.iter().position(|x| *x == t) {
+            Some(k) => format!("a{k}"),
+            None => "x".into(),
+        }
+    }
+
+    /// the node's wire log and the condition-variable events, per thread, in order
+    fn traces(&self) -> (String, String) {
+        let wire: Vec<String> = {
+            let st = self.w.node.0.lock().unwrap();
+            st.wire
+                .iter()
+                .map(|(t, k, txid, answered)| {
+                    let id = txid.and_then(|x| self.w.id_of_txid.get(&x).map(|v| *v as i64)).unwrap_or(-2);
+                    format!("{}:{}:{}:{}", self.role(*t), *k as u8, id, if *answered { "K" } else { "E" })
+                })
+                .collect()
+        };
+        let sync: Vec<String> = self
+            .rec
+            .trace()
+            .iter()
+            .map(|(t, e)| match e {
+                SyncEv::Wait(held) => {
+                    let mut h = held.clone();
+                    h.sort();
+                    format!("{}:W:{}", self.role(*t), h.iter().map(|x| x.to_string()).collect::<Vec<_>>().join("+"))
+                }
+                SyncEv::Wake => format!("{}:K:", self.role(*t)),
+                SyncEv::Notify => format!("{}:N:", self.role(*t)),
+            })
+            .collect();
+        (wire.join("/"), sync.join("/"))
+    }
+
+    fn mdl_of(&self, s: &Step) -> String {
+        match s {
+            Step::Api(Op::Register(u)) => format!("R:{u}"),
+            Step::Api(Op::Add { signer, loc, blob, delay, .. }) => {
+                let ab = self.w.blobs[*blob].1;
+                format!("A:{signer}:{loc}:{}:{}:{}:{delay}", ab.key, ab.pay, ab.len)
+            }
+            Step::Api(Op::Get { signer, loc, .. }) => format!("G:{signer}:{loc}"),
+            Step::Api(Op::GetSub { signer, .. }) => format!("S:{signer}"),
+            Step::Api(_) => "Z".into(),
+            Step::Mine(txs) => format!("M:{}", txs.iter().map(|t| t.to_string()).collect::<Vec<_>>().join(":")),
+            Step::Reorg(..) => "X".into(),
+            Step::Poll => "P".into(),
+            Step::ArmOutage(n) => format!("O:{n}"),
+            Step::NodeUp => "U".into(),
+            Step::FailBlock(j) => format!("F:{j}"),
+            Step::Probe => "S:-1".into(),
+        }
+    }
+
+    /// Is thread `t` blocked for good?  Decided from the wait-for graph, not from a time-out: it waits on the
+    /// condition variable while the flag is false (only a successful poll of the chain monitor raises it, and the
+    /// caller asks only when no poll is on its way to do so), or it asks for a lock whose holder is blocked for good.
+    fn certainly_blocked(&self, t: ThreadId, depth: u32) -> bool {
+        if self.rec.is_waiting(t) {
+            return self.tower_knows_down();
+        }
+        match self.rec.requested_by(t) {
+            Some(l) if depth < 4 => match self.rec.holder_of(l, t) {
+                Some(h) => self.certainly_blocked(h, depth + 1),
+                None => false,
+            },
+            _ => false,
+        }
+    }
+
+    /// Waits until the thread `tid` has delivered on `rx` or is blocked for good (10 s is only the fallback).
     fn settle<T>(&self, tid: Option<ThreadId>, rx: &mpsc::Receiver<T>) -> Option<T> {
         let t0 = Instant::now();
-        let mut last_events = self.rec.events();
-        let mut stable_since = Instant::now();
         loop {
             if let Ok(v) = rx.recv_timeout(Duration::from_millis(2)) {
                 return Some(v);
             }
-            let ev = self.rec.events();
-            if ev != last_events {
-                last_events = ev;
-                stable_since = Instant::now();
-            }
-            let blocked = tid.map(|t| self.rec.is_waiting(t) || self.rec.requested_by(t).is_some()).unwrap_or(false);
-            if blocked && stable_since.elapsed() > Duration::from_millis(60) {
-                return None;
+            let blocked = tid.map(|t| self.certainly_blocked(t, 0)).unwrap_or(false);
+            if blocked {
+                // the reply may have been sent just before the thread was seen blocked in a LATER wait: look once more
+                return rx.try_recv().ok();
             }
             if t0.elapsed() > Duration::from_secs(10) {
                 return None;
@@ -141,6 +228,8 @@ impl Run {
     }
 
     fn step(&mut self, s: &Step, idx: usize) {
+        let item = self.mdl_of(s);
+        self.mdl.push(item);
         match s {
             Step::Api(op) => {
                 let (call, meta) = self.w.prepare(op);
@@ -151,6 +240,7 @@ impl Run {
                     let _ = tx.send(r);
                 });
                 let tid = h.thread().id();
+                self.api_tids.push(tid);
                 match self.settle(Some(tid), &rx) {
                     Some(reply) => {
                         let toks = self.w.render(&meta, reply);
@@ -183,20 +273,17 @@ impl Run {
                 }
                 self.mon.start_poll();
                 let t0 = Instant::now();
-                let mut last_events = self.rec.events();
-                let mut stable_since = Instant::now();
                 loop {
                     if let Some(ok) = self.mon.try_finish(Duration::from_millis(2)) {
                         self.out.push(format!("poll{idx}:{}", if ok { "returned" } else { "PANIC" }));
                         break;
                     }
-                    let ev = self.rec.events();
-                    if ev != last_events {
-                        last_events = ev;
-                        stable_since = Instant::now();
-                    }
-                    let blocked = self.mon_tid.map(|t| self.rec.is_waiting(t) || self.rec.requested_by(t).is_some()).unwrap_or(false);
-                    if (blocked && stable_since.elapsed() > Duration::from_millis(60)) || t0.elapsed() > Duration::from_secs(10) {
+                    let blocked = self.mon_tid.map(|t| self.certainly_blocked(t, 0)).unwrap_or(false);
+                    if blocked || t0.elapsed() > Duration::from_secs(10) {
+                        if let Some(ok) = self.mon.try_finish(Duration::from_millis(0)) {
+                            self.out.push(format!("poll{idx}:{}", if ok { "returned" } else { "PANIC" }));
+                            break;
+                        }
                         let t = self.mon_tid.unwrap();
                         let why = if self.rec.is_waiting(t) {
                             format!("waits-reachable,holds={:?}", self.rec.held_by(t))
@@ -214,6 +301,8 @@ impl Run {
             Step::ArmOutage(n) => {
                 let mut st = self.w.node.0.lock().unwrap();
                 st.outage_at = Some(st.calls + n);
+                self.wire_mark = st.wire.len() as i64;
+                self.deliv_mark = delivered_heights().len() as i64;
             }
             Step::NodeUp => {
                 self.link.store(false, Ordering::SeqCst);
@@ -221,6 +310,7 @@ impl Run {
             }
             Step::FailBlock(j) => {
                 self.chain.source.0.lock().unwrap().fail_block_in = Some(*j);
+                self.deliv_mark = delivered_heights().len() as i64;
             }
             Step::Probe => {
                 let knows = self.tower_knows_down();
@@ -231,6 +321,7 @@ impl Run {
                     let _ = tx.send(runner.run(call));
                 });
                 let tid = h.thread().id();
+                self.api_tids.push(tid);
                 match self.settle(Some(tid), &rx) {
                     Some(reply) => {
                         let toks = self.w.render(&meta, reply);
@@ -257,17 +348,35 @@ impl Run {
     }
 
     /// End of scenario: is anything still blocked although the node is reachable again and polls succeed?
-    fn finish(mut self) -> Vec<String> {
+    fn finish(self) -> Vec<String> {
+        self.finish_with(true)
+    }
+
+    fn finish_with(mut self, polls: bool) -> Vec<String> {
         // give the tower what it needs to recover by itself: node up, two successful polls
         self.link.store(false, Ordering::SeqCst);
+        self.mdl.push("U".into());
         for i in 0..2 {
-            if !self.mon.polling {
+            if polls && !self.mon.polling {
                 self.step(&Step::Poll, 900 + i);
             }
+        }
+        // a woken thread may still be on its way: wait for every request in flight until it has answered or is
+        // blocked for good, and for a poll in flight likewise
+        let t0 = Instant::now();
+        while t0.elapsed() < Duration::from_secs(10) {
+            self.collect_finished();
+            let mon_busy = self.mon.polling && !self.mon_tid.map(|t| self.certainly_blocked(t, 0)).unwrap_or(false);
+            let api_busy = self.inflight.iter().any(|f| !self.certainly_blocked(f.tid, 0));
+            if !mon_busy && !api_busy {
+                break;
+            }
+            std::thread::sleep(Duration::from_millis(2));
         }
         self.collect_finished();
         self.monitor_stuck = self.mon.polling;
         self.api_stuck = !self.inflight.is_empty();
+        self.snapshot = Some(self.traces());
         if self.monitor_stuck || self.api_stuck {
             // nothing in the tower can wake these threads; release them so the process can go on
             self.forced = true;
@@ -302,6 +411,13 @@ impl Run {
         out.push(format!("probes={}/{}", self.probes_refused, self.probes_during_outage));
         out.push(format!("lkb={lkb_height}"));
         out.push(format!("tip={}", self.chain.height()));
+        let (wire, sync) = self.snapshot.clone().unwrap_or_default();
+        out.push(format!("wmark={}", self.wire_mark));
+        out.push(format!("wire={wire}"));
+        out.push(format!("sync={sync}"));
+        out.push(format!("mdl={}", if polls { self.mdl.join("/") } else { String::new() }));
+        out.push(format!("dmark={}", self.deliv_mark));
+        out.push(format!("deliv={}", delivered_heights().join(",")));
         out.push(format!("state=[{}]", line.0));
         let _ = sends;
         self.mon.stop();
@@ -429,6 +545,68 @@ fn run_scenario(t: u32, fault: Option<(u64, u32, bool)>, armed: bool, rec: &Arc<
     out
 }
 
+/// heights of the blocks handed to the listeners so far (BC events of the first listener), in order
+fn delivered_heights() -> Vec<String> {
+    verif_harness::evlog::snapshot()
+        .iter()
+        .filter_map(|(_, e)| e.strip_prefix("BC:").and_then(|r| r.rsplit(':').next().map(|h| h.to_string())))
+        .collect()
+}
+
+/// `monitor_chain` ITSELF (polling every second) over a 4-block backlog whose `stall`-th download takes longer
+/// than the polling interval: a poll must not be abandoned half-way (the SPV client would lose the tip it had
+/// reached and hand the same blocks to the listeners again).
+fn run_stall_scenario(stall: Option<u64>, rec: &Arc<Recorder>, init: &[(u64, bitcoin::Block)], tag: &str) -> Vec<String> {
+    let mut r = Run::new(work_dir(tag), rec.clone(), init);
+    r.w.make_blob(1, 101, 0, 0);
+    r.w.make_blob(2, 102, 0, 0);
+    let add = |u: i64, loc: u64, blob: usize| Step::Api(Op::Add { signer: u, class: 0, loc, blob, delay: 10 });
+    let steps = vec![
+        Step::Api(Op::Register(0)),
+        Step::Api(Op::Register(1)),
+        add(0, 1, 0),
+        add(1, 2, 1),
+        Step::Mine(vec![]),
+        Step::Mine(vec![1]),
+        Step::Mine(vec![]),
+        Step::Mine(vec![2]),
+    ];
+    for (i, s) in steps.iter().enumerate() {
+        r.step(s, i);
+    }
+    if let Some(j) = stall {
+        let mut st = r.chain.source.0.lock().unwrap();
+        st.stall_block_in = Some(j);
+        st.stall_ms = 1700;
+    }
+    // the on-demand monitor thread of `Run` stays idle; the loop gets a monitor of its own on the same tower
+    let (handle, trigger) = MonitorThread::spawn_loop(r.chain.source.clone(), r.chain.header_at(r.chain.active[INIT_TIP].1).unwrap(), &r.w, 1);
+    let t0 = Instant::now();
+    let want = 4usize;
+    // until every block has been handed over and the loop has had one more round, at most 9 s
+    let mut done_at: Option<Instant> = None;
+    loop {
+        std::thread::sleep(Duration::from_millis(20));
+        if done_at.is_none() && delivered_heights().len() >= want {
+            done_at = Some(Instant::now());
+        }
+        let settled = done_at.map(|d| d.elapsed() > Duration::from_millis(if stall.is_some() { 2300 } else { 300 })).unwrap_or(false);
+        if settled || t0.elapsed() > Duration::from_secs(9) {
+            break;
+        }
+    }
+    trigger.trigger();
+    let t1 = Instant::now();
+    while !handle.is_finished() && t1.elapsed() < Duration::from_secs(4) {
+        std::thread::sleep(Duration::from_millis(10));
+    }
+    r.out.push(format!("loop={}", if handle.is_finished() { "returned" } else { "STUCK" }));
+    let dir = r.w.dir.clone();
+    let out = r.finish_with(false);
+    let _ = std::fs::remove_dir_all(dir);
+    out
+}
+
 fn main() {
     let args: Vec<String> = std::env::args().collect();
     if args.len() < 2 {
@@ -464,6 +642,14 @@ fn main() {
                 }
             }
         }
+    }
+    // monitor_chain itself, with a download that stalls longer than the polling interval (twin: no stall)
+    let twin = run_stall_scenario(None, &rec, &init, "twin");
+    writeln!(out, "OT 5 -1 0 0 | {}", twin.join(" ")).unwrap();
+    let stalls: &[u64] = if thorough { &[0, 1, 2, 3] } else { &[2] };
+    for j in stalls {
+        let o = run_stall_scenario(Some(*j), &rec, &init, "f");
+        writeln!(out, "OT 5 {j} 0 0 | {}", o.join(" ")).unwrap();
     }
     out.flush().unwrap();
     std::process::exit(0);
